@@ -20,8 +20,8 @@ package mqttproxy
 // Workload: 2-6 raw MQTT 3.1.1 clients (paho packet codec over simnet
 // connections, keep-alive 0, clean session) with drawn, overlapping
 // subscription sets of mixed QoS; 1-2 publisher tasks issuing QoS0/QoS1
-// messages through the HTTP handler, single or in bursts (up to 120, with or
-// without a scheduling gate between the calls); per client a cyclic list of
+// messages through the HTTP handler, single or in bursts (up to 120, a
+// scheduling gate between the calls); per client a cyclic list of
 // PUBACK behaviours (prompt / ignore the first k copies / delay by d / send
 // twice, optionally followed by PINGREQ), an optional window in which the
 // client stops reading, late re-subscriptions, and client PUBLISH QoS0/1
@@ -157,7 +157,6 @@ type c15Pub struct {
 	T     string `json:"t"`
 	Q     int    `json:"q"`
 	Burst int    `json:"burst,omitempty"`
-	Gated bool   `json:"gated,omitempty"`
 	B64   bool   `json:"b64,omitempty"`
 	Dist  bool   `json:"dist,omitempty"`
 }
@@ -306,7 +305,7 @@ func c15Gen(rng *sim.Rand, tier string) interface{} {
 		n := rng.Range(1, 8)
 		for j := 0; j < n; j++ {
 			p := c15Pub{ID: fmt.Sprintf("%d.%d", i, j), GapMs: rng.Pick(0, 0, 0, 1, 50, 250), T: topic(), Q: qos(),
-				B64: rng.Bool(0.15), Dist: rng.Bool(0.5), Gated: rng.Bool(0.5)}
+				B64: rng.Bool(0.15), Dist: rng.Bool(0.5)}
 			p.Burst = rng.Pick(1, 1, 1, 1, 2, 5)
 			if big {
 				p.Burst = rng.Pick(1, 2, 20, 60, 120)
@@ -418,8 +417,8 @@ func c15Shrink(sci interface{}) []interface{} {
 			})
 			variant(func(c *c15Scenario) bool {
 				p := &c.Publishers[i].Pubs[j]
-				ch := p.GapMs != 0 || p.Gated || p.B64 || !p.Dist
-				p.GapMs, p.Gated, p.B64, p.Dist = 0, false, false, true
+				ch := p.GapMs != 0 || p.B64 || !p.Dist
+				p.GapMs, p.B64, p.Dist = 0, false, true
 				return ch
 			})
 		}
@@ -1170,7 +1169,11 @@ func (h *c15H) runPublisher(pb *c15Publisher) {
 				return
 			}
 			h.issue(p, k)
-			if p.Gated && k+1 < n {
+			// always a gate between two publishes: a long stretch without one
+			// (120 handler calls) can exceed the Go runtime's 10 ms preemption
+			// quantum under load, which reorders the piled-up fan-out
+			// goroutines irreproducibly.
+			if k+1 < n {
 				h.r.Yield("c15.burst")
 			}
 		}
@@ -1546,7 +1549,7 @@ func TestVerifC15(t *testing.T) {
 		Exec:     c15Exec,
 		Shrink:   c15Shrink,
 		MaxSteps: 600000,
-		Rule: "scenario = 2-6 raw MQTT clients with 1-6 overlapping filters of QoS 0/1 over 1-4 topics (1-2 SUBSCRIBE packets, late re-subscriptions), per-client PUBACK behaviours (prompt, omit k, delay, duplicate, +PINGREQ), optional read stall, client PUBLISH ops; 1-2 publishers with 1-8 HTTP publishes each (QoS 0/1, bursts up to 120, gated or not), limiter/pipeline-drop knobs, simnet buffer/segment/latency plan; " +
+		Rule: "scenario = 2-6 raw MQTT clients with 1-6 overlapping filters of QoS 0/1 over 1-4 topics (1-2 SUBSCRIBE packets, late re-subscriptions), per-client PUBACK behaviours (prompt, omit k, delay, duplicate, +PINGREQ), optional read stall, client PUBLISH ops; 1-2 publishers with 1-8 HTTP publishes each (QoS 0/1, bursts up to 120), limiter/pipeline-drop knobs, simnet buffer/segment/latency plan; " +
 			"non-trivial = some message had >=2 eligible subscribers and (a QoS1 message had both eligible and lower-QoS subscribers, or a retransmission was observed); distinct = distinct (final subscriptions, per-client sequence of received messages with copy counts) signatures",
 		Real: []string{"pkg/object/mqttproxy: newBroker, Broker.run/handleConn/connectionValidation/setSession, sendMsgToClient, httpTopicsPublishHandler, Client.readLoop/writeLoop/processPacket (SUBSCRIBE, PUBLISH, PUBACK, PINGREQ), pipelineWrapper, Limiter, SessionManager, Session.publish/puback/doResend/backgroundResendPending (200 ms ticker on the virtual clock), TopicManager",
 			"pkg/util/ratelimiter (publish limiter)", "github.com/eclipse/paho.mqtt.golang/packets codec on both sides"},
